@@ -133,7 +133,7 @@ func (r *e2eRig) nEvents() int {
 // ---- receiver -------------------------------------------------------------------------
 
 func (r *e2eRig) startReceiver() {
-	r.stLogger = stslog.NewFileIO(r.recvLog, nil, nil, true)
+	r.stLogger = stslog.NewFileIO(r.recvLog, nil, safeLogOpen, true)
 	st := stage.New("e2e", r.stageDir, r.finalDir, r.stLogger, nil, nil)
 	st.Recover()
 	r.mu.Lock()
@@ -402,7 +402,7 @@ func (r *e2eRig) startSender() error {
 		Transmitter:  r.transmit,
 		TxRecoverer:  r.recoverTx,
 		Validator:    r.validate,
-		Logger:       recLogger{stslog.NewFileIO(r.sentLogDir, nil, nil, false), r},
+		Logger:       recLogger{stslog.NewFileIO(r.sentLogDir, nil, safeLogOpen, false), r},
 		Tagger:       nameToTag,
 		CacheAge:     time.Hour, ScanDelay: c.ScanDelay, Threads: c.Threads,
 		PayloadSize: units.Base2Bytes(c.PayloadSize), StatInterval: time.Hour,
